@@ -322,6 +322,10 @@ def specs(tier):
                for v in ['tls10', 'tls12'] for sz in ([100] if (i, v) != ('aes_ct', 'tls12') else [0, 1, 100, 333])]
         cbc += [('aes_ct', 'sha1', 'tls12', 16384, ['good', 'good_pad_long']), ('aes_ct', 'sha1', 'tls12', 16385, ['bad_too_long']),
                 ('aes_ct64', 'sha256', 'tls10', 16385, ['bad_too_long'])]
+    # records of the largest accepted size (16384 bytes of plaintext + MAC + 256 bytes of padding): only for SHA-256 / SHA-384 is that
+    # total a multiple of the block size, and only then does the hidden-length HMAC see min_len == max_len
+    cbc += [('aes_ct', 'sha256', 'tls12', 16384, ['good_pad_long', 'bad_padbyte_mid']),
+            ('aes_ct64', 'sha384', 'tls12', 16384, ['good_pad_long', 'bad_mac_last'])]
     for impl, h, ver, sz, vs in cbc:
         for v in vs:
             if v == 'bad_padlen_over' and sz > 200:
